@@ -550,6 +550,8 @@ pub struct LowOpts {
     pub jac_storage: MatrixStorage,
     /// None = builder default
     pub mass_storage: Option<MatrixStorage>,
+    /// run the solver without any SolOut (callback-free twin)
+    pub no_callback: bool,
 }
 impl Default for LowOpts {
     fn default() -> Self {
@@ -562,6 +564,7 @@ impl Default for LowOpts {
             newton_maxiter: None,
             jac_storage: MatrixStorage::Full,
             mass_storage: Some(MatrixStorage::Identity),
+            no_callback: false,
         }
     }
 }
@@ -577,6 +580,7 @@ pub fn run_low<F: IVP, S: SolOut>(
     lo: &LowOpts,
     so: &mut S,
 ) -> Result<IntegrationResult, String> {
+    let so: Option<&mut S> = if lo.no_callback { None } else { Some(so) };
     let r = match method {
         Method::RK4 => {
             let h = lo.first_step.unwrap_or((xend - x0) / 100.0);
@@ -584,7 +588,7 @@ pub fn run_low<F: IVP, S: SolOut>(
                 .max_steps(lo.max_steps.unwrap_or(usize::MAX))
                 .dense_output(lo.dense)
                 .build();
-            s.solve(f, x0, y0, xend, h, Some(so))
+            s.solve(f, x0, y0, xend, h, so)
         }
         Method::RK23 => RK23::builder()
             .maybe_max_step(lo.max_step)
@@ -592,21 +596,21 @@ pub fn run_low<F: IVP, S: SolOut>(
             .max_steps(lo.max_steps.unwrap_or(usize::MAX))
             .dense_output(lo.dense)
             .build()
-            .solve(f, x0, y0, xend, rtol.to_tolerance(), atol.to_tolerance(), Some(so)),
+            .solve(f, x0, y0, xend, rtol.to_tolerance(), atol.to_tolerance(), so),
         Method::DOPRI5 => DOPRI5::builder()
             .maybe_max_step(lo.max_step)
             .maybe_first_step(lo.first_step)
             .max_steps(lo.max_steps.unwrap_or(usize::MAX))
             .dense_output(lo.dense)
             .build()
-            .solve(f, x0, y0, xend, rtol.to_tolerance(), atol.to_tolerance(), Some(so)),
+            .solve(f, x0, y0, xend, rtol.to_tolerance(), atol.to_tolerance(), so),
         Method::DOP853 => DOP853::builder()
             .maybe_max_step(lo.max_step)
             .maybe_first_step(lo.first_step)
             .max_steps(lo.max_steps.unwrap_or(usize::MAX))
             .dense_output(lo.dense)
             .build()
-            .solve(f, x0, y0, xend, rtol.to_tolerance(), atol.to_tolerance(), Some(so)),
+            .solve(f, x0, y0, xend, rtol.to_tolerance(), atol.to_tolerance(), so),
         Method::RADAU => {
             let b = RADAU::builder()
                 .maybe_max_step(lo.max_step)
@@ -618,7 +622,7 @@ pub fn run_low<F: IVP, S: SolOut>(
                 .jac_storage(lo.jac_storage.clone())
                 .maybe_mass_storage(lo.mass_storage.clone());
             b.build()
-                .solve(f, x0, y0, xend, rtol.to_tolerance(), atol.to_tolerance(), Some(so))
+                .solve(f, x0, y0, xend, rtol.to_tolerance(), atol.to_tolerance(), so)
         }
         Method::BDF => BDF::builder()
             .maybe_max_step(lo.max_step)
@@ -628,7 +632,7 @@ pub fn run_low<F: IVP, S: SolOut>(
             .maybe_newton_maxiter(lo.newton_maxiter)
             .jac_storage(lo.jac_storage.clone())
             .build()
-            .solve(f, x0, y0, xend, rtol.to_tolerance(), atol.to_tolerance(), Some(so)),
+            .solve(f, x0, y0, xend, rtol.to_tolerance(), atol.to_tolerance(), so),
     };
     r.map_err(|e| format!("{:?}", e))
 }
